@@ -165,7 +165,7 @@ def runSOps {Req Resp} (w : World Req Resp) (source : Val) (tag : String) (st : 
     let res : Outcome (List (String × Val) × Iter) :=
       match st.req.pre with
       | none => .ok ([], s.g.iter)
-      | some m => runPre (tree source s.rv) st.req.iter m [] s.g.iter
+      | some m => runPre w.fn (tree source s.rv) st.req.iter m [] s.g.iter
     (match res with
      | .panic _ => .undef
      | .err _ => runSOps w source tag st r { s with err := true, pv := none }
